@@ -15,9 +15,22 @@ pub fn run(sc: &Value) -> Value {
     let alpha = if sc.get("alpha").is_some() { num(&sc["alpha"]) } else { 1.0 };
     let via = sc["via"].as_str().unwrap_or("fill");
     let mut dt = DrawTarget::new(w, h);
+    // optional clip path (device space): the source is then drawn SrcOver onto the transparent target through the
+    // clip; pixels the clip covers fully must still show the source exactly, pixels it does not cover stay empty
+    let clip = sc.get("clip").map(|c| crate::canvas::parse_path(c, 1.0));
+    let mut clipcov: Option<Vec<u32>> = None;
+    if let Some(cp) = &clip {
+        let mut probe = DrawTarget::new(w, h);
+        probe.push_clip(cp);
+        probe.fill_rect(0., 0., w as f32, h as f32, &Source::Solid(SolidSource { r: 255, g: 255, b: 255, a: 255 }), &DrawOptions::new());
+        clipcov = Some(probe.get_data().iter().map(|p| p >> 24).collect());
+    }
     let r = std::panic::catch_unwind(std::panic::AssertUnwindSafe(|| {
+        if let Some(cp) = &clip {
+            dt.push_clip(cp);
+        }
         dt.set_transform(&ctm);
-        let o = DrawOptions { blend_mode: BlendMode::Src, alpha, antialias: AntialiasMode::Gray };
+        let o = DrawOptions { blend_mode: if clip.is_some() { BlendMode::SrcOver } else { BlendMode::Src }, alpha, antialias: AntialiasMode::Gray };
         match via {
             "fill" => {
                 let inv = match ctm.inverse() {
@@ -63,6 +76,9 @@ pub fn run(sc: &Value) -> Value {
         if let Some(tm) = tmap(sc, w, h, den as f64, kind) {
             out.insert("tmap".into(), tm);
         }
+    }
+    if let Some(cc) = clipcov {
+        out.insert("clipcov".into(), json!(cc));
     }
     out.insert("outcome".into(), json!(if r.is_ok() { "ok" } else { "panic" }));
     out.insert("pix".into(), pix(dt.get_data()));
